@@ -326,7 +326,15 @@ def go_env():
     return e
 
 
+_BUILD_LOCK = threading.Lock()
+
+
 def build_driver(run, race=False, tags="verif"):
+    with _BUILD_LOCK:
+        return _build_driver(run, race, tags)
+
+
+def _build_driver(run, race=False, tags="verif"):
     out = os.path.join(run.scratch, "driver-race" if race else "driver")
     if os.path.exists(out):
         return out
@@ -334,7 +342,15 @@ def build_driver(run, race=False, tags="verif"):
     if race:
         cmd.insert(2, "-race")
     cmd.append("./cmd/driver")
-    p = subprocess.run(cmd, cwd=HARNESS, env=go_env(), stdout=subprocess.PIPE, stderr=subprocess.STDOUT, text=True)
+    hdir = HARNESS
+    if REPO != "/repo":
+        # experiments against a scratch copy of the repository (VERIF_REPO): same harness, replace directive redirected
+        hdir = os.path.join(run.scratch, "harness")
+        if not os.path.exists(hdir):
+            shutil.copytree(HARNESS, hdir)
+            gm = open(os.path.join(hdir, "go.mod")).read().replace("=> /repo", "=> " + REPO)
+            open(os.path.join(hdir, "go.mod"), "w").write(gm)
+    p = subprocess.run(cmd, cwd=hdir, env=go_env(), stdout=subprocess.PIPE, stderr=subprocess.STDOUT, text=True)
     if p.returncode != 0:
         raise Inconclusive("harness build failed:\n" + p.stdout[-3000:])
     return out
